@@ -332,6 +332,17 @@ static std::string enumerate(int K, int shard, int nshards) {
         faces[i] = tris[x % 125];
         x /= 125;
       }
+      // cheap record of the case under test for the watchdog / sanitizer death hook
+      {
+        auto &cc = current_case();
+        cc.mode = "c13";
+        cc.tokens.assign(1, k * 3);
+        for (auto &t : faces)
+          for (int j = 0; j < 3; ++j) cc.tokens.push_back(t[j]);
+        cc.tokens.push_back(0);
+        cc.tokens.push_back(0);
+        if ((total & 1023) == 0) arm_watchdog();
+      }
       CtInfo info;
       std::string err = check_ct(faces, &info);
       ++total;
